@@ -25,7 +25,7 @@
      rewritten tree); no modelled operation panics, so the model has no such path.
    * an unmodelled built-in (static_arity / method_arity = None) is left unchanged by the model
      although the implementation may fold it: [node_unmodelled] (applied to the nodes of the result) tells the correspondence run to skip. *)
-From P2 Require Import Base.Prelude Sem.Num Sem.Syntax Sem.Ops Sem.Lib Sem.Gen.
+From P2 Require Import Base.Prelude Sem.Num Sem.Syntax Sem.Ops Sem.Lib Sem.Gen Sem.Sim.
 
 (* ---------- the configuration the optimizer reads ---------- *)
 
@@ -39,8 +39,14 @@ Record cfgflags := mkflags {
   f_map : bool;                          (* g.mapHandler != nil *)
   f_closure : bool;                      (* g.closureHandler != nil *)
   f_method : bool;                       (* g.methodHandler != nil *)
-  f_fieldcheck : bool                    (* the method rule leaves a map field holding a closure alone
+  f_fieldcheck : bool;                   (* the method rule leaves a map field holding a closure alone
                                             (the repaired code; false = the code as found) *)
+  f_strict : bool                        (* NOT a switch of the implementation (always false there): when
+                                            set, a fold is performed only if the computed constant is a
+                                            first-order value (Sim.fo), so that the only closure constants
+                                            are those of the closure-literal rule.  The soundness theorem
+                                            is proved for the strict optimizer and carries over to every
+                                            program on which both optimizers agree. *)
 }.
 
 Definition type_id (v : value) : N :=
@@ -158,6 +164,10 @@ Definition clo_value_pure (c : value) : bool :=
   | _ => false
   end.
 
+(* the constant node that replaces [orig] (strict mode: only first-order constants) *)
+Definition strict_ok (v : value) : bool := negb (f_strict fl) || fo v.
+Definition konst (orig : ast) (v : value) : ast := if strict_ok v then AConst v else orig.
+
 (* ---------- optimizer.Optimize: the node rules, in the order of the code ---------- *)
 
 Definition rule_op (op : name) (a b : ast) : ast :=
@@ -169,17 +179,21 @@ Definition rule_op (op : name) (a b : ast) : ast :=
     | None => orig
     | Some bc =>
       match (if pure then is_const a else None) with
-      | Some ac => match calc op ac bc with Ok co => AConst co | _ => orig end
+      | Some ac => match calc op ac bc with Ok co => konst orig co | _ => orig end
       | None =>
         if comm then
           match a with
           | AOp op2 ia ib =>
               if str_eqb op2 op then
                 match is_const ia with
-                | Some iac => match calc op iac bc with Ok co => AOp op (AConst co) ib | _ => orig end
+                | Some iac => match calc op iac bc with
+                              | Ok co => if strict_ok co then AOp op (AConst co) ib else orig
+                              | _ => orig end
                 | None =>
                     match is_const ib with
-                    | Some ibc => match calc op ibc bc with Ok co => AOp op ia (AConst co) | _ => orig end
+                    | Some ibc => match calc op ibc bc with
+                                  | Ok co => if strict_ok co then AOp op ia (AConst co) else orig
+                                  | _ => orig end
                     | None => orig
                     end
                 end
@@ -195,7 +209,7 @@ Definition rule_unary (op : name) (x : ast) : ast :=
   let orig := AUnary op x in
   if mem_name op (f_unary fl) then
     match is_const x with
-    | Some c => match ucalc op c with Ok co => AConst co | _ => orig end
+    | Some c => match ucalc op c with Ok co => konst orig co | _ => orig end
     | None => orig
     end
   else orig.
@@ -210,7 +224,7 @@ Definition rule_if (c t e : ast) : ast :=
   else orig.
 
 Definition rule_list (l : list ast) : ast :=
-  if f_list fl then match all_const l with Some vs => AConst (VList vs) | None => AList l end
+  if f_list fl then match all_const l with Some vs => konst (AList l) (VList vs) | None => AList l end
   else AList l.
 
 Definition rule_index (l i : ast) : ast :=
@@ -218,7 +232,7 @@ Definition rule_index (l i : ast) : ast :=
   if f_list fl then
     match is_const l with
     | Some lv => match is_const i with
-                 | Some iv => match access_list lv iv with Ok v => AConst v | _ => orig end
+                 | Some iv => match access_list lv iv with Ok v => konst orig v | _ => orig end
                  | None => orig
                  end
     | None => orig
@@ -226,14 +240,14 @@ Definition rule_index (l i : ast) : ast :=
   else orig.
 
 Definition rule_map (m : list (name * ast)) : ast :=
-  if f_map fl then match all_const_map m with Some vs => AConst (VMap vs) | None => AMap m end
+  if f_map fl then match all_const_map m with Some vs => konst (AMap m) (VMap vs) | None => AMap m end
   else AMap m.
 
 Definition rule_member (m : ast) (key : name) : ast :=
   let orig := AMember m key in
   if f_map fl then
     match is_const m with
-    | Some mv => match access_map mv key with Ok v => AConst v | _ => orig end
+    | Some mv => match access_map mv key with Ok v => konst orig v | _ => orig end
     | None => orig
     end
   else orig.
@@ -245,7 +259,7 @@ Definition rule_static (f : name) (args : list ast) : ast :=
     | Some ar =>
         if arity_matches ar (length args) then
           match all_const args with
-          | Some cs => match run_static f cs with Ok v => AConst v | _ => orig end
+          | Some cs => match run_static f cs with Ok v => konst orig v | _ => orig end
           | None => orig
           end
         else orig
@@ -263,7 +277,7 @@ Definition rule_call (fn : ast) (args : list ast) : ast :=
             if clo_value_pure cv then
               if Nat.eqb (length ps) (length args) then
                 match all_const args with
-                | Some cs => match gapp cv cs with Ok v => AConst v | _ => orig end
+                | Some cs => match gapp cv cs with Ok v => konst orig v | _ => orig end
                 | None => orig
                 end
               else orig
@@ -293,7 +307,7 @@ Definition rule_method (recv : ast) (mname : name) (args : list ast) : ast :=
             | Some ar =>
                 if method_pure fl rv mname then
                   if arity_matches ar (length cs) then
-                    match run_method gapp rv mname cs with Ok v => AConst v | _ => orig end
+                    match run_method gapp rv mname cs with Ok v => konst orig v | _ => orig end
                   else orig
                 else orig
             | None => orig                (* no such method, or not modelled: see node_unmodelled *)
@@ -381,11 +395,11 @@ End Opt.
 
 (* ---------- the flags of value.New() (value/value.go), after the repairs ---------- *)
 
+(* after the repair "'*' is not regrouped": no operator is flagged commutative *)
 Definition value_ops : list (name * (bool * bool)) :=
   map (fun o => (o, (true, false)))
-      [op_or; op_and; op_eq; op_ne; op_in; op_lt; op_gt; op_le; op_ge; op_add; op_sub; op_shl; op_shr]
-  ++ [(op_mul, (true, true))]
-  ++ map (fun o => (o, (true, false))) [op_mod; op_div; op_pow].
+      [op_or; op_and; op_eq; op_ne; op_in; op_lt; op_gt; op_le; op_ge; op_add; op_sub; op_shl; op_shr;
+       op_mul; op_mod; op_div; op_pow].
 
 Definition n_random := S_ [114;97;110;100;111;109]%N.
 
@@ -396,29 +410,39 @@ Definition value_static : list (name * bool) :=
        n_numbers; n_min; n_max].
 
 Definition value_flags : cfgflags :=
-  mkflags value_ops [op_sub; op_not] value_static [] true true true true true true.
+  mkflags value_ops [op_sub; op_not] value_static [] true true true true true true false.
 
-(* the flags at the pinned commit: =, & and | were flagged commutative as well, and the method rule
-   did not look for closure fields *)
 Definition set_comm (ops : list (name * (bool * bool))) (o : name) : list (name * (bool * bool)) :=
   map (fun e => if str_eqb (fst e) o then (fst e, (fst (snd e), true)) else e) ops.
 
 Definition with_ops (fl : cfgflags) (ops : list (name * (bool * bool))) : cfgflags :=
   mkflags ops (f_unary fl) (f_static fl) (f_meth_impure fl) (f_tobool fl) (f_list fl) (f_map fl)
-          (f_closure fl) (f_method fl) (f_fieldcheck fl).
+          (f_closure fl) (f_method fl) (f_fieldcheck fl) (f_strict fl).
 
+(* the table before that repair: * flagged commutative (why the flag was removed:
+   OptFlagsProofs.regroup_ok_mul_commutative_refuted) *)
+Definition value_flags_mul_commutative : cfgflags := with_ops value_flags (set_comm value_ops op_mul).
+
+(* the flags at the pinned commit: =, & and | were flagged commutative as well, and the method rule
+   did not look for closure fields *)
 Definition pinned_flags : cfgflags :=
-  let fl := with_ops value_flags (set_comm (set_comm (set_comm value_ops op_eq) op_and) op_or) in
-  mkflags (f_ops fl) (f_unary fl) (f_static fl) (f_meth_impure fl) true true true true true false.
+  let fl := with_ops value_flags
+              (set_comm (set_comm (set_comm (set_comm value_ops op_mul) op_eq) op_and) op_or) in
+  mkflags (f_ops fl) (f_unary fl) (f_static fl) (f_meth_impure fl) true true true true true false false.
 
 (* no operator regroups *)
 Definition no_regroup (fl : cfgflags) : cfgflags :=
   with_ops fl (map (fun e => (fst e, (fst (snd e), false))) (f_ops fl)).
 
+(* the strict optimizer: folds only to first-order constants *)
+Definition strict (fl : cfgflags) : cfgflags :=
+  mkflags (f_ops fl) (f_unary fl) (f_static fl) (f_meth_impure fl) (f_tobool fl) (f_list fl) (f_map fl)
+          (f_closure fl) (f_method fl) (f_fieldcheck fl) true.
+
 (* the closure-literal rule switched off (a generator without closure handler) *)
 Definition no_closure_fold (fl : cfgflags) : cfgflags :=
   mkflags (f_ops fl) (f_unary fl) (f_static fl) (f_meth_impure fl) (f_tobool fl) (f_list fl) (f_map fl)
-          false (f_method fl) (f_fieldcheck fl).
+          false (f_method fl) (f_fieldcheck fl) (f_strict fl).
 
 (* ---------- what the model cannot follow ---------- *)
 
